@@ -721,12 +721,19 @@ def g_tah_hist(rng):
         steps.append("new")
     live = [0, 1]
     n = 2
+    # AreTransitionsEmpty() unshares the rule table: in most histories it is not part of the per-step views (so that copies
+    # really share storage when the next step comes) and only called through explicit `te` steps
+    note = rng.random() < 0.85
+    if note:
+        steps.append("opt!note")
     for _ in range(rng.randint(5, 18)):
         if not live:
             break
         c = rng.random()
         i = rng.choice(live)
         j = rng.choice(live)
+        if note and rng.random() < 0.04:
+            steps.append(f"te!{i}")
         if c < 0.14:
             steps.append(rng.choice(["copy", "copy", "copy", "copynt", "copynf"]) + f"!{i}")
             live.append(n); n += 1
